@@ -10,7 +10,7 @@ from .core import Explorer, HarnessError
 from .symstr import SymStr, RegexShim, sym_chars
 from .symnum import SymInt, SymFloat, sym_float, sym_int, instantiate
 
-_ALPHA = ['a', 'b', '"', '\\', '@', '^', ' ', '\t', '\n', '<', '>', '#', ':', '/', '.', '1', 'A', 'é', ' ', '_', '%', ';', ',']
+_ALPHA = ['\r', '\x0b', '\u2028', 'a', 'b', '"', '\\', '@', '^', ' ', '\t', '\n', '<', '>', '#', ':', '/', '.', '1', 'A', 'é', ' ', '_', '%', ';', ',']
 _PATTERNS = ["[\r\n\t]", "  +", '[^\\\\]"', " #", "[:/#]", " +", "http[s]?\\://"]
 
 
@@ -37,7 +37,7 @@ def _str_ops(rng):
         ("stripc", lambda x: x.strip(t)), ("split", lambda x: x.split(t)), ("splitws", lambda x: x.split()),
         ("replace", lambda x: x.replace(t, u)), ("count", lambda x: x.count(t)),
         ("lower", lambda x: x.lower()), ("upper", lambda x: x.upper()),
-        ("isnumeric", lambda x: x.isnumeric()), ("isspace", lambda x: x.isspace()), ("isdigit", lambda x: x.isdigit()), ("isalpha", lambda x: x.isalpha()), ("isalnum", lambda x: x.isalnum()),
+        ("isnumeric", lambda x: x.isnumeric()), ("isspace", lambda x: x.isspace()), ("isdigit", lambda x: x.isdigit()), ("isalpha", lambda x: x.isalpha()), ("isalnum", lambda x: x.isalnum()), ("splitlines", lambda x: x.splitlines()), ("splitlines_k", lambda x: x.splitlines(True)),
         ("slice", lambda x: x[i:j]), ("rev", lambda x: x[::-1]), ("len", lambda x: len(x)),
         ("add", lambda x: x + t), ("radd", lambda x: t + x), ("eq", lambda x: x == t), ("ne", lambda x: x != t),
         ("eqr", lambda x: t == x), ("inlist", lambda x: x in [t, u, s]), ("join", lambda x: type(x)(t).join([x, x]) if isinstance(x, SymStr) else t.join([x, x])),
